@@ -3,23 +3,23 @@ import SignaloModel.Proofs.MedianAccL
 /-!
 # C17 — Median filter accessors report true window min/median/max
 
-Property theorems for C17 (statements are printed by `#check`, axioms by `#check @Registry.median_registry_accessors
-#check @Registry.median_registry_accessors_init
-#check @Registry.median_max_counterexample
-#print axioms`;
-`bin/check C17` re-elaborates this file on every run and audits the axiom lists).
+The property theorems for C17: `#check` prints each statement, `#print axioms` its axioms;
+`bin/check C17` re-elaborates this file on every run and audits the axiom lists.
 -/
 open SignaloModel
 
+#check @Registry.median_registry_accessors
+#check @Registry.median_registry_accessors_init
+#check @Registry.median_max_counterexample
 #check @MedianL.accessors_L
 #check @Median.acc_min
 #check @Median.acc_med
 #check @Median.acc_max_is_latest
 
+#print axioms Registry.median_registry_accessors
+#print axioms Registry.median_registry_accessors_init
+#print axioms Registry.median_max_counterexample
 #print axioms MedianL.accessors_L
 #print axioms Median.acc_min
 #print axioms Median.acc_med
 #print axioms Median.acc_max_is_latest
-#print axioms Registry.median_registry_accessors
-#print axioms Registry.median_registry_accessors_init
-#print axioms Registry.median_max_counterexample
